@@ -886,7 +886,7 @@ func computeMulti(p *Prog) *multiInfo {
 			continue
 		}
 		for _, r := range *refs {
-			if !mi.multi[r.Parent()] {
+			if !mi.multi[r.Parent()] && !mi.multi[outermost(r.Parent())] {
 				continue
 			}
 			switch x := r.(type) {
@@ -908,6 +908,16 @@ func computeMulti(p *Prog) *multiInfo {
 				}
 			case *ssa.Field:
 				mark(x)
+			case *ssa.Store:
+				// a shared value kept in a local variable (possibly captured by a closure)
+				if x.Val == v {
+					switch x.Addr.(type) {
+					case *ssa.Alloc, *ssa.FreeVar:
+						for _, ld := range cellLoads(x.Addr) {
+							mark(ld)
+						}
+					}
+				}
 			case *ssa.ChangeType:
 				mark(x)
 			case *ssa.MakeInterface:
